@@ -88,6 +88,21 @@ func genC04Request(g *G, u, sink *Account) *Op {
 	if exactIn {
 		amt := g.ModestAmount("c04/amt", in.Amount)
 		est := estimateOut(p, in.Denom, out.Denom, amt)
+		// the chain's own quote on the committed state (what a front end shows the user): the plain pool output
+		// and, for oracle pools off their target weights, the nominal weight-recovery bonus on top of it
+		if q, err := g.W.App.AmmKeeper.SwapEstimation(g.W.ReadCtx(), &ammtypes.QuerySwapEstimationRequest{
+			Routes: []*ammtypes.SwapAmountInRoute{{PoolId: p.PoolId, TokenOutDenom: out.Denom}}, TokenIn: sdk.NewCoin(in.Denom, amt), Discount: sdkmath.LegacyZeroDec()}); err == nil && q.TokenOut.Amount.IsPositive() {
+			est = q.TokenOut.Amount
+			if q.WeightBalanceRatio.IsPositive() && g.Bool("c04/withinbonus") {
+				// a minimum between the plain output and output + nominal bonus
+				frac := sdkmath.LegacyNewDecWithPrec(int64(g.Int("c04/bonusfrac", 1, 99)), 2)
+				est = est.Add(q.WeightBalanceRatio.Mul(frac).MulInt(est).TruncateInt())
+				g.H.Labels["c04-min-within-bonus"]++
+				return &Op{Signer: u, Kind: "c04.swap_in", Msg: &ammtypes.MsgSwapExactAmountIn{Sender: u.Addr.String(),
+					Routes:  []ammtypes.SwapAmountInRoute{{PoolId: p.PoolId, TokenOutDenom: out.Denom}},
+					TokenIn: sdk.NewCoin(in.Denom, amt), TokenOutMinAmount: est, Recipient: rcpt}}
+			}
+		}
 		return &Op{Signer: u, Kind: "c04.swap_in", Msg: &ammtypes.MsgSwapExactAmountIn{Sender: u.Addr.String(),
 			Routes:  []ammtypes.SwapAmountInRoute{{PoolId: p.PoolId, TokenOutDenom: out.Denom}},
 			TokenIn: sdk.NewCoin(in.Denom, amt), TokenOutMinAmount: limitAround(g, est, false), Recipient: rcpt}}
